@@ -82,10 +82,10 @@ def mesh_menu(thorough):
     v0, f0 = A.icosphere(0, 0.2)
     v1, f1 = A.icosphere(1, 0.15)
     cube = np.array([[sx * 0.1, sy * 0.15, sz * 0.2] for sx in (-1, 1) for sy in (-1, 1) for sz in (-1, 1)])
-    menu = [("tetra", tet, R.hull_faces(tet)), ("ico1", v1, f1), ("cube", cube, R.hull_faces(cube))]
+    menu = [("tetra", tet, R.hull_faces(tet)), ("ico0", v0, f0), ("ico1", v1, f1), ("cube", cube, R.hull_faces(cube))]
     if thorough:
         v2, f2 = A.icosphere(2, 0.25)
-        menu += [("octa", octa, R.hull_faces(octa)), ("ico0", v0, f0), ("ico2", v2, f2)]
+        menu += [("octa", octa, R.hull_faces(octa)), ("ico2", v2, f2)]
     return menu
 
 
@@ -597,7 +597,9 @@ def scene_item(lib, part, item, thorough):
                 rp = {"xml": xml, "qpos": [ang] + list(fp) + list(fq), "pnt": ow, "vec": V[i], "cutoff": cutoff}
                 if np.isfinite(xr[i]) and xr[i] * vn[i] <= cutoff * (1 - 1e-9):
                     if abs(md[i] - xr[i]) * vn[i] > TOL * (1 + xr[i] * vn[i]):
-                        part.violation("scene: mj_multiRay with cutoff drops/changes a hit nearer than cutoff",
+                        kw = int(Xf[:, i].argmin())
+                        sphere = (md[i] < 0 or md[i] > xr[i]) and classify_multi(m, d, kw, ow, np.ascontiguousarray(V[i]))
+                        part.violation(K_MULTI_SPHERE if sphere else "scene: mj_multiRay with cutoff drops/changes a hit nearer than cutoff",
                                        "multiRay=%.17g expected %.17g cutoff=%g pnt=%s vec=%s" % (md[i], xr[i], cutoff, ow, V[i]), rp)
                 elif md[i] >= 0 and md[i] * vn[i] < cutoff * (1 - 1e-9):
                     part.violation("scene: mj_multiRay with cutoff reports a hit nearer than any geom",
